@@ -17,7 +17,7 @@ func propC04() Property {
 		ID: "C04",
 		Explanation: "R1 (typestate): a recovering session that sent a TestRequest is pendingTimeout{resendState}; every type test on a session state value that has an arm for a type that can be wrapped must test an UNWRAPPED operand (the switch also handles the wrapper, or the operand comes from an unwrapping function). Otherwise recovery is treated as 'not recovering': a second ResendRequest is sent and the stash is replaced. " +
 			"R2: in the too-high arm the early message is stored in the returned state's stash under its own MsgSeqNum on every path that returns a recovery state. R3: every recovery state produced while already recovering (next chunk) carries the receiver's stash. " +
-			"R4: ResendRequest fields: BeginSeqNo(7) ← begin parameter; EndSeqNo(16) ← chunk end or the infinity marker, 999999 only below FIX.4.2 and 0 otherwise; the too-high handler requests (expected, received-1); continuation chunks begin at the store's next expected number. R5: the stash is drained by looking up and deleting exactly the store's next expected number and feeding the message to the in-session handler.",
+			"R4: ResendRequest fields: BeginSeqNo(7) ← begin parameter; EndSeqNo(16) ← chunk end or the infinity marker, 999999 only below FIX.4.2 and 0 otherwise; the too-high handler requests (expected, received-1); continuation chunks begin at the store's next expected number. R5: the stash is drained by looking up and deleting exactly the store's next expected number and feeding the message to the in-session handler. R6: resendState is a value type whose copies share the stash only through the map; every function that creates a fresh recovery state allocates its stash before returning it, so that a message stashed through one copy is seen by the copy that is kept.",
 		NotDecided: "liveness (that the stash is eventually drained), chunk arithmetic over histories, counts of ResendRequests over a trace.",
 		Rules: []RuleDef{
 			{ID: "C04-R1", Desc: "wrapper-transparent state tests", Min: 2, Run: c04R1},
@@ -25,6 +25,7 @@ func propC04() Property {
 			{ID: "C04-R3", Desc: "stash carried into the next chunk's state", Min: 2, Run: c04R3},
 			{ID: "C04-R4", Desc: "ResendRequest field binding and infinity markers", Min: 6, Run: c04R4},
 			{ID: "C04-R5", Desc: "stash drained at the next expected number", Min: 3, Run: c04R5},
+			{ID: "C04-R6", Desc: "every freshly created recovery state owns an allocated stash", Min: 1, Run: c04R6},
 		},
 	}
 }
@@ -508,5 +509,69 @@ func c04R5(c *Ctx) {
 	}
 	if n == 0 {
 		c.Violation("", "-", "no-drain", "no function looks messages up in resendState.messageStash")
+	}
+}
+
+// c04R6: a fresh resendState (a local that is returned and not copied from an existing
+// state) gets messageStash ← make(...) before every successful return.
+func c04R6(c *Ctx) {
+	p := c.P
+	fStash := p.Field(modPath, "resendState", "messageStash")
+	rs := p.Named(modPath, "resendState")
+	n := 0
+	for _, fn := range p.FuncsIn(modPath) {
+		res := fn.Signature.Results()
+		if res.Len() == 0 || !types.Identical(res.At(0).Type(), rs) {
+			continue
+		}
+		// the returned state: an alloc of resendState without a whole-value store (fresh)
+		var fresh *ssa.Alloc
+		ForEachInstr(fn, func(in ssa.Instruction) {
+			al, ok := in.(*ssa.Alloc)
+			if !ok || !types.Identical(al.Type().Underlying().(*types.Pointer).Elem(), rs) {
+				return
+			}
+			whole := false
+			for _, r := range *al.Referrers() {
+				if st, ok := r.(*ssa.Store); ok && st.Addr == ssa.Value(al) {
+					whole = true
+				}
+			}
+			if !whole {
+				fresh = al
+			}
+		})
+		if fresh == nil {
+			continue
+		}
+		n++
+		name := FuncName(fn)
+		var alloc *ssa.Store
+		for _, r := range *fresh.Referrers() {
+			if fa, ok := r.(*ssa.FieldAddr); ok {
+				if st := derefStruct(fa.X.Type()); st != nil && st.Field(fa.Field) == fStash {
+					for _, rr := range *fa.Referrers() {
+						if s2, ok := rr.(*ssa.Store); ok && s2.Addr == ssa.Value(fa) && p.Origin(s2.Val).Kind == "make" {
+							alloc = s2
+						}
+					}
+				}
+			}
+		}
+		ok := alloc != nil
+		if ok {
+			for _, b := range fn.Blocks {
+				if r, isR := b.Instrs[len(b.Instrs)-1].(*ssa.Return); isR && len(r.Results) == 2 && p.Origin(r.Results[1]).IsNil() {
+					if !InstrDominates(alloc, r) {
+						ok = false
+					}
+				}
+			}
+		}
+		c.Check(ok, name, p.Pos(fn.Pos()), "stash-allocated", "fresh recovery state returned with an allocated stash",
+			"a fresh recovery state is returned without an allocated stash: the first early message is stashed into a map created in a by-value copy of the state, the copy that is kept never sees it, and the message is lost (gap detected on the Logon, then an early application message)")
+	}
+	if n == 0 {
+		c.Violation("", "-", "no-fresh-state", "no function creates a fresh recovery state")
 	}
 }
